@@ -127,7 +127,16 @@ fn gen_macro_case(t: &mut Tape) -> MacroCase {
                 let args: Vec<InnerOp> = macros[target]
                     .params
                     .iter()
-                    .map(|_| if nparams > 0 && t.flip() { InnerOp::Param(t.below(nparams)) } else { InnerOp::Text(t.draw(8).to_string()) })
+                    .map(|_| {
+                        if crate::engine::gen_version() >= 2 && nlabels > 0 && t.chance(1, 4) {
+                            // v2: a label of THIS block handed to the nested macro
+                            InnerOp::BlockLabel(t.below(nlabels))
+                        } else if nparams > 0 && t.flip() {
+                            InnerOp::Param(t.below(nparams))
+                        } else {
+                            InnerOp::Text(t.draw(8).to_string())
+                        }
+                    })
                     .collect();
                 body.push(Inner::Call { mac: target, args });
                 continue;
@@ -220,7 +229,9 @@ fn gen_macro_case(t: &mut Tape) -> MacroCase {
     // v2: the whole program in a bank whose first address is not 0 (block labels are addresses, not offsets)
     if crate::engine::gen_version() >= 2 && t.chance(1, 4) {
         let a = *t.pick(&[0x10u64, 0x40, 0x80]);
-        plain.insert(0, (0usize, format!("#bankdef zb\n{{\n    addr = {}\n    outp = 0\n}}", a)));
+        // (one in four of these: labels must be aligned to 16 bits - block labels are labels)
+        let la = if t.chance(1, 4) { "\n    labelalign = 16" } else { "" };
+        plain.insert(0, (0usize, format!("#bankdef zb\n{{\n    addr = {}\n    outp = 0{}\n}}", a, la)));
     }
     MacroCase { isa, macros, calls, plain, globals, forward_global: true, local_label_used, expr_arg }
 }
@@ -433,14 +444,42 @@ impl Property for C17 {
                     other => other.brief(),
                 };
                 ctx.label(if ob.ok().is_some() { "inlined:ok" } else { "inlined:error" });
+                if c.macros.iter().any(|m| m.body.iter().any(|i| matches!(i, Inner::Call { args, .. } if args.iter().any(|a| matches!(a, InnerOp::BlockLabel(_)))))) {
+                    ctx.label("shape:block-label-handed-to-nested-macro");
+                }
                 // the statement speaks about what writing the instructions in place WOULD produce: when the
                 // hand-inlined program is itself rejected nothing is asserted (except that nothing crashes)
                 let comparable = ob.ok().is_some() || matches!(oa, AsmOutcome::Panic(_) | AsmOutcome::Inconsistent { .. });
                 if comparable && (key(&oa) != key(&ob) || matches!(oa, AsmOutcome::Panic(_) | AsmOutcome::Inconsistent { .. })) {
                     ctx.want_render = true;
                     ctx.render(render);
+                    // input predicate of a listed finding: a macro that the program calls (directly or through
+                    // another macro) hands one of its OWN block labels to a nested macro call
+                    fn reaches(macros: &[Macro], mi: usize, seen: &mut Vec<usize>) -> bool {
+                        if seen.contains(&mi) {
+                            return false;
+                        }
+                        seen.push(mi);
+                        macros[mi].body.iter().any(|inner| match inner {
+                            Inner::Call { mac, args } => args.iter().any(|a| matches!(a, InnerOp::BlockLabel(_))) || reaches(macros, *mac, seen),
+                            _ => false,
+                        })
+                    }
+                    let label_to_nested = c.calls.iter().any(|(mi, _)| reaches(&c.macros, *mi, &mut Vec::new()));
+                    // input predicate of another listed finding: the bank asks for aligned labels and a called macro
+                    // declares a label in its block
+                    fn has_label(macros: &[Macro], mi: usize, seen: &mut Vec<usize>) -> bool {
+                        if seen.contains(&mi) {
+                            return false;
+                        }
+                        seen.push(mi);
+                        macros[mi].nlabels > 0 || macros[mi].body.iter().any(|inner| matches!(inner, Inner::Call { mac, .. } if has_label(macros, *mac, seen)))
+                    }
+                    let labelalign_block_label = a.contains("labelalign") && c.calls.iter().any(|(mi, _)| has_label(&c.macros, *mi, &mut Vec::new()));
                     let clause = match (&oa, &ob) {
                         (AsmOutcome::Panic(p), _) => format!("M|panic {}", sut::panic_site(p)),
+                        _ if labelalign_block_label => "labelalign-and-block-label|macro-differs-from-inlined".to_string(),
+                        _ if label_to_nested => "block-label-to-nested-macro|macro-differs-from-inlined".to_string(),
                         (AsmOutcome::Err(_), AsmOutcome::Ok(_)) => "M|macro-rejected-inlined-accepted".to_string(),
                         (AsmOutcome::Ok(_), AsmOutcome::Err(_)) => "M|macro-accepted-inlined-rejected".to_string(),
                         _ => "M|bits-differ".to_string(),
